@@ -95,7 +95,7 @@ abbrev C := StateM CState
 def unsup (what : String) : C Unit :=
   modify fun s => if s.unsupported.isNone then { s with unsupported := some what } else s
 
-def mangleFnName (module ident : String) : String := s!"@{module}_{ident}"
+def mangleFnName (module ident : String) : String := s!"@{module}.{ident}"
 
 def addFn (ident mangled : String) : C Unit :=
   modify fun s =>
@@ -126,7 +126,7 @@ def mangleVar (ident : String) : C String := do
   let vm := if (s.varMangle.lookup ident).isSome then
       s.varMangle.map fun (k, n) => if k == ident then (k, n + 1) else (k, n)
     else s.varMangle ++ [(ident, 1)]
-  let mangled := s!"@{s.currModule}_{ident}{cnt}"
+  let mangled := s!"@{s.currModule}.{ident}.{cnt}"
   let scopes := match s.scopes with
     | sc :: rest => ((ident, mangled) :: sc.filter (·.1 != ident)) :: rest
     | [] => [[(ident, mangled)]]
@@ -140,7 +140,7 @@ def mangleLabel (ident : String) : C String := do
       s.labelMangle.map fun (k, n) => if k == ident then (k, n + 1) else (k, n)
     else s.labelMangle ++ [(ident, 1)]
   set { s with labelMangle := lm }
-  pure s!"{s.currModule}_{ident}{cnt}"
+  pure s!"{s.currModule}.{ident}.{cnt}"
 
 def getMangled (ident : String) : C (Option String) := do
   let s ← get
@@ -601,6 +601,8 @@ def compileProgram (fuel : Nat) (prog : Program) (entry : String) : C Unit := do
       if !imp.targetIsHms then
         for (item, kind) in imp.items do
           if kind == 0 then emit (.importI imp.fromModule item) default
+    -- every `@init` but the entry module's ends here (the entry's is terminated in pass 2)
+    if m.name != entry then emit .ret default
     for f in m.fns do addFn f.name (mangleFnName m.name f.name)
     if m.nImpls > 0 then unsup "impl blocks"
   -- pass 2: function bodies, then the entry module's init epilogue
